@@ -276,6 +276,11 @@ class Engine(object):
             return PList(list(ex.ctx.__dict__.get("trace", [])))
         self.prims["trace_events"] = GhostPrim("trace_events", trace_events)
 
+        def open_string(ex, t):
+            """a string of a tuning: the Note itself, or the first Note of a course"""
+            return t.items[0] if isinstance(t, PList) else t
+        self.prims["open_string"] = GhostPrim("open_string", open_string)
+
         def isstr(ex, v):
             return is_strlike(v)
         self.prims["is_str"] = GhostPrim("is_str", isstr)
@@ -555,6 +560,14 @@ class Engine(object):
 
     def percent_format(self, ex, fmt, tup):
         import re
+        if fmt.count("%") == 1 and "%s" in fmt and len(tup) == 1 and isinstance(tup[0], SStr):
+            pre, post = fmt.split("%s")
+            r = tup[0]
+            if pre:
+                r = ex.str_concat(as_sstr(pre), r)
+            if post:
+                r = ex.str_concat(r, as_sstr(post))
+            return r
         m = re.match(r"^%0(\d+)x$", fmt)
         if m and len(tup) == 1 and isinstance(tup[0], (SInt,)):
             return HexStr(tup[0].e, int(m.group(1)))
@@ -861,6 +874,13 @@ class Engine(object):
                         for pp in parts[1:-1]:
                             o = o.fields[pp]
                         o.fields[parts[-1]] = from_py(val)
+                if isinstance(split_expr, dict) and split_expr.get("field_types"):
+                    for path, ty in split_expr["field_types"].items():
+                        parts = path.split(".")
+                        o = env[parts[0]]
+                        for pp in parts[1:-1]:
+                            o = o.fields[pp]
+                        o.fields[parts[-1]] = self.fresh_of_type(ex, ty, path, env)
                 if isinstance(split_expr, dict) and split_expr.get("module_state"):
                     for path, expr in split_expr["module_state"].items():
                         modname, _, attr = path.rpartition(".")
@@ -873,8 +893,12 @@ class Engine(object):
                             w.items = list(val.items)
                         else:
                             raise Unsupported("module_state of %s" % path)
-                for (nm, pre) in self.norm_named(contract.get("requires"), "pre"):
-                    ctx.assume(ex.spec_bool(pre, penv))
+                ctx.hyp_mode = True
+                try:
+                    for (nm, pre) in self.norm_named(contract.get("requires"), "pre"):
+                        ctx.assume(ex.spec_bool(pre, penv))
+                finally:
+                    ctx.hyp_mode = False
                 if split_expr_s is not None:
                     ctx.assume(ex.spec_bool(split_expr_s, penv))
                 for nm, expr in (contract.get("old") or {}).items():
@@ -914,7 +938,7 @@ class Engine(object):
             if outcome is not None and outcome[0] != "cut" and solve:
                 # reachability canary for this exit
                 r = self.check_sat(ctx.pc_at_exit if hasattr(ctx, "pc_at_exit") else ctx.pc, axioms, 1500)
-                if r == "sat":
+                if r != "unsat":     # only a path condition PROVED contradictory counts as unreachable
                     reachable_exits += 1
             for vc in ctx.vcs:
                 if solve:
@@ -1077,7 +1101,11 @@ class Engine(object):
         r = s.check()
         return str(r)
 
+    solve_inline = False
+
     def discharge(self, vc, axioms, ctx):
+        if vc.pre is not None:
+            return dict(vc.pre)
         t0 = time.time()
         g = z3.simplify(vc.goal)
         if z3.is_true(g):
